@@ -57,7 +57,9 @@ ResetVerdict(defaults, cfg, subset, o) ==
 UpgradeVerdict(c, o) == IF o.out # "ok" THEN "UpgradeFailed"
                         ELSE IF ~o.all_keys THEN "DefaultKeyMissingAfterUpgrade"
                         ELSE IF ~o.user_kept THEN "UserValueChangedByUpgrade"
-                        ELSE IF ~o.added_defaults THEN "AddedKeyNotTheDefault" ELSE "ok"
+                        ELSE IF ~o.added_defaults THEN "AddedKeyNotTheDefault"
+                        \* a reset of some parameters later in the SAME process must still restore the defaults
+                        ELSE IF ~o.reset_after_ok THEN "ResetDoesNotRestoreDefaults" ELSE "ok"
 \* unknown parameters cannot be added to the loaded settings
 LockVerdict(c, o) == IF o.refused /\ o.keys_same THEN "ok" ELSE "UnknownParameterAdded"
 \* -c: the config file's values win over command-line values and over matching package settings, for that run only
